@@ -120,6 +120,10 @@ type Replica struct {
 	LastInit abci.ResponseInitChain
 	closed   bool
 
+	// Ambient makes RunBlock/SpecBlock issue the mempool checks a real node performs around a block
+	// (default from the environment variable VERIF_AMBIENT=1).
+	Ambient bool
+
 	// Panicked is set when the application's panic handler ran during a call on this replica
 	// (the handler recovers, prints and then closes the application).
 	Panicked  bool
@@ -150,7 +154,7 @@ func NewReplica(name string, g *Genesis, c *Chain, role Role, dir string) (*Repl
 		return nil, err
 	}
 	idb := dbm.NewMemDB()
-	r := &Replica{Name: name, G: g, Role: role, Dir: dir, App: a, Idx: kv.NewTxIndex(idb), idb: idb}
+	r := &Replica{Name: name, G: g, Role: role, Dir: dir, App: a, Idx: kv.NewTxIndex(idb), idb: idb, Ambient: os.Getenv("VERIF_AMBIENT") == "1"}
 	a.VerifSetBoot(g.Doc, c.BS)
 	r.enter()
 	if err := a.Prepare(); err != nil {
@@ -241,14 +245,51 @@ func (r *Replica) RunBlock(b *Block) *BlockRes {
 	return res
 }
 
+// ambient issues the mempool checks a real node performs around the consensus calls of a block: every
+// transaction of a block went through CheckTx on the node before it was proposed, and the mempool keeps
+// checking while the block executes. The results are ignored (mempool isolation is C07's subject); the
+// point is that single-replica histories see the same call mix a node sees.
+func (r *Replica) ambient(stage string, b *Block, k int) {
+	if !r.Ambient || len(b.Txs) == 0 || r.Panicked {
+		return
+	}
+	switch stage {
+	case "before-begin":
+		for _, tx := range b.Txs {
+			r.CheckTx(tx)
+			if r.Panicked {
+				return
+			}
+		}
+	case "between":
+		if k+1 < len(b.Txs) {
+			r.CheckTx(b.Txs[k+1])
+		}
+	case "before-end":
+		r.CheckTx(b.Txs[(int(b.Height)+k)%len(b.Txs)])
+	}
+}
+
 func (r *Replica) runUpToEnd(b *Block) *BlockRes {
 	res := &BlockRes{Height: b.Height}
+	r.ambient("before-begin", b, 0)
+	if r.Panicked {
+		res.Aborted = true
+		return res
+	}
 	res.Begin = r.BeginBlock(b)
 	if r.Panicked {
 		res.Aborted = true
 		return res
 	}
-	for _, tx := range b.Txs {
+	for k, tx := range b.Txs {
+		if k > 0 {
+			r.ambient("between", b, k-1)
+			if r.Panicked {
+				res.Aborted = true
+				return res
+			}
+		}
 		d := r.DeliverTx(tx)
 		if r.Panicked {
 			res.Aborted = true
@@ -256,6 +297,11 @@ func (r *Replica) runUpToEnd(b *Block) *BlockRes {
 		}
 		res.Deliver = append(res.Deliver, d)
 		res.Txs = append(res.Txs, TxRes{Code: d.Code, Data: d.Data, GasWanted: d.GasWanted, GasUsed: d.GasUsed, Log: d.Log})
+	}
+	r.ambient("before-end", b, len(b.Txs))
+	if r.Panicked {
+		res.Aborted = true
+		return res
 	}
 	res.End = r.EndBlock(b.Height)
 	if r.Panicked {
